@@ -1891,6 +1891,13 @@ func (self *LockDB) doExpried(lock *Lock, forcedExpried bool, removeWaited bool)
 		return
 	}
 
+	if !forcedExpried && lock.expriedTime > self.currentTime && lock.command.ExpriedFlag&protocol.EXPRIED_FLAG_MILLISECOND_TIME == 0 {
+		lock.expriedCheckedCount++
+		self.AddExpried(lock)
+		lockManager.glock.Unlock()
+		return
+	}
+
 	if !forcedExpried {
 		if self.status != STATE_LEADER && lock.isAof {
 			if lock.expriedTime <= 0 || self.currentTime-lock.expriedTime < EXPRIED_WAIT_LEADER_MAX_TIME {
